@@ -61,7 +61,12 @@ def random_run(rng):
             ops.append(("stream", n) if rng.random() < 0.5 else read_op())
         run["ops"] = ops
         run["drain"] = ("stream", n) if rng.random() < 0.5 else rng.choice(DRAINS)
-    # after the end: a few more calls must return b"" (EmptyAfterEnd) -- appended by the driver as extra ops
+    # after the normal end a few more calls must return b"" (EmptyAfterEnd)
+    if not run["preload"] and rng.random() < 0.5:
+        if mode in ("reads", "mixed"):
+            run["after"] = [read_op() for _ in range(rng.randint(1, 2))]
+        else:
+            run["after"] = [run["drain"]]
     return run
 
 
@@ -79,15 +84,18 @@ def run(rep):
     sc = "ScC12Tiny" if quick else "ScC12"
     need = ["Read", "ReadNOp", "Read1N", "Read1All", "ReadInto", "Read0", "Stream", "ChunkedOp", "Iter", "Preload",
             "Dispose", "NextRequest"]
-    plans = [("repaired design, intact responses", dict(sc=sc, maxops=3 if quick else 4, _cov=True, _need=need), None),
+    plans = [("repaired design, intact responses",
+              dict(sc="ScC12", maxops=5, after=2, _cov=True, _need=need) if quick else
+              dict(sc="ScC12", maxops=6, after=2, amts="AFull", amts1="A1237", gen="A1237", into="A37", _cov=True, _need=need), None),
              ("deviation D6 exhibited", dict(sc="ScC12Tiny", kd="JustD6"), bc.DEFECT_CLAUSES["JustD6"]),
              ("deviation D7 exhibited", dict(sc="ScC12Tiny", kd="JustD7"), bc.DEFECT_CLAUSES["JustD7"]),
+             *([] if quick else [("repaired design, 12-unit bodies", dict(sc="ScC12Big", maxops=5, lag=5), None)]),
              ("liveness: every call sequence ends", dict(spec="LiveSpec", sc="ScC12Tiny", amts="A2", amts1="A2", into="A2",
                                                          gen="A2", maxops=30, after=0, body="PROPERTY Terminates"), None)]
     J = bc.JOBS
     ekw = dict(sc=sc, maxops=3, amts="A1237", amts1="A27", into="A3", gen="A27")
     rng = random.Random(rep.seed * 7919 + 12)
-    rruns = [random_run(rng) for _ in range(6000 if quick else 250000)]
+    rruns = [random_run(rng) for _ in range(6000 if quick else 150000)]
     # probe: stream(amt=None) after a partial sized read on a decoded body (with D6 present this spins forever and is
     # stopped by a short per-case deadline; with D6 repaired it simply passes)
     for coding, framing in (("gzip", "cl"), ("zstd", "close")) if quick else (("gzip", "cl"), ("zstd", "close"), ("deflate", "cl")):
